@@ -129,7 +129,7 @@ ADDENDA = {
  "C06": (" A sub-protocol in which sender and receiver wait for each other is an outcome (stall), and the outputs of earlier batches are re-validated after later batches on the same instance.", ""),
  "C07": (" Arith.tla also defines array index (the documented low-bits rule), logical and/or and bit tests with a constant bit number; complete tables for arrays of 1..6 (8) elements.", ""),
  "C08": (" Histories include a program that fails to compile after imported packages were instantiated and a program importing several packages with package-level variables. Determ.tla has the share mode 'par' (compilations at the same time in one process, guard LeakScratch); the child runs such operations concurrently.", ""),
- "C10": (" GmwNet.tla (formation of the network: online/offline connection per pair, sequential accept loops, leader phases, peer list; Complete/NoError/ListComplete/termination) model-checked for 2-5 parties; every real run inspects the connection table when Connect returns (tagged accessor), runs further circuits on the used network and counts a crash of a library goroutine as an outcome.", ""),
+ "C10": (" GmwNet.tla (formation of the network: online/offline connection per pair, sequential accept loops, leader phases, peer list; Complete/NoError/ListComplete/termination) model-checked for 2-4 parties (5 by simulation in the thorough tier); every real run inspects the connection table when Connect returns (tagged accessor), runs further circuits on the used network and counts a crash of a library goroutine as an outcome.", ""),
  "C11": (" The library's own in-memory transport p2p.Pipe is exercised with an early Close and a late, slow reader. Buffer dimensions (write and read buffer size, number of write buffers) are measured on a live Conn and substituted into the generator and trace configurations; the caller overwrites its buffer as soon as SendData has returned.", ""),
  "C13": (" Also: string results and arrays of strings/booleans (IOEnc.tla StrWires/StrChars), circuit.Sizes (size inference from Go values: sufficient, equal to the textual form, read back), mpc.Results. Compiled programs with a struct argument that mixes sized and unsized members return every member (the layout Parse/Set produce is the layout the program reads).", ""),
  "C15": (" The outputs of earlier accepted batches are re-validated after later Sends on the same sender. An honest batch follows every aborted one on the same pair (it must not abort or hang); batch sizes include exact multiples of 1024. Kos.tla covers a second flip in the column; flips are located by the batch's global row while the messages pass (no assumption about message sizes), the place of the check rows is measured.", ""),
